@@ -111,5 +111,17 @@ def choose(
     """
     choices = numpoly.aspolynomial(choices)
     a = numpy.asarray(a)
-    result = numpy.choose(a, choices=choices.values, out=out, mode=mode)
-    return numpoly.aspolynomial(result, names=choices.indeterminants)
+    if out is not None:
+        result = numpy.choose(a, choices=choices.values, out=out, mode=mode)
+        return numpoly.aspolynomial(result, names=choices.indeterminants)
+    # choose per coefficient: numpy cannot select among structured scalars
+    coefficients = [
+        numpy.choose(a, choices=coefficient, mode=mode)
+        for coefficient in choices.coefficients
+    ]
+    return numpoly.polynomial_from_attributes(
+        exponents=choices.exponents,
+        coefficients=coefficients,
+        names=choices.names,
+        dtype=choices.dtype,
+    )
